@@ -43,6 +43,9 @@ type monitor struct {
 	aligned int
 
 	kinds  []consumer
+	rkinds []readerKind
+	wkinds []writerKind
+	ifaces ifaceLog
 	gmu    sync.Mutex
 	groups map[groupKey]*group
 
@@ -72,6 +75,7 @@ func main() {
 		"plaintext lengths up to 6 chunks (400 000 bytes); unbounded sizes are not explored",
 		"the plaintext reader is consumed by Read loops with 8 buffer sizes, by io.Copy into a plain Writer (uses a WriteTo of the reader if there is one) and by io.ReadAll",
 		"a result that differs from the baseline under every delivery schedule it was run with is reported once with sched=* (the cause is then the consumption mode / buffer / handed-in bufio, not the schedule)",
+		"optional interfaces (ByteReader, RuneReader, ByteScanner, WriterTo, ReaderAt, Seeker / StringWriter, ByteWriter, ReaderFrom) are discovered by type assertion on every returned value; one that is absent is recorded, not judged",
 		"consumer kinds over armor.NewReader (bufio ReadByte/ReadString/Peek/WriteTo/Read, Scanner, ReadFull blocks, 1-byte CopyBuffer, iotest.OneByteReader) run under the schedules whole, 1byte, random, bufio16over1byte",
 		"age.Decrypt over armor is also compared with age.Decrypt over the bytes (and error) plain de-armoring releases",
 		"malformed armor texts are judged only for independence of delivery schedule and read size, never for whether they should be accepted (C08); no read-ahead bound is applied to them",
@@ -88,7 +92,7 @@ func main() {
 	} else {
 		r.Set("reference_self_check_vectors", nv)
 	}
-	m := &monitor{r: r, groups: map[groupKey]*group{}, kinds: consumers()}
+	m := &monitor{r: r, groups: map[groupKey]*group{}, kinds: consumers(), rkinds: readerKinds(), wkinds: writerKinds()}
 
 	// Serial phase: everything that encrypts runs under the process-global tap.
 	t0 := time.Now()
@@ -98,6 +102,7 @@ func main() {
 		}
 	}
 	m.encryptSweep()
+	m.armorWriterIfaces()
 	lap("encrypt sweep")
 	files := m.buildFiles()
 	lap("build files")
@@ -118,6 +123,9 @@ func main() {
 			r.Inconclusive("no malformed-armor text was exercised as %s", k)
 		}
 	}
+	// which optional interfaces the returned values implement on this tree
+	// (inconclusive only if the discovery itself did not run)
+	m.ifaces.report(r)
 	// vacuity guard for the leading-white-space family: files with >= 100
 	// blank lines before BEGIN must have met a plain consumer, age.Decrypt and
 	// every consumer that goes through a bufio fill loop
